@@ -294,6 +294,16 @@ func run(sc scenario, viol func(key, id, msg string)) *result {
 		if p.CredsFail {
 			opts = append(opts, grpc.PerRPCCredentials(failCreds{}))
 		}
+		if p.MsgSize >= 30000 {
+			// A retry attempt replays the buffered messages while it holds the
+			// clientStream mutex; if that replay blocks on flow control (more
+			// than the 64 KB write quota buffered, handler not reading) the
+			// stream's context watcher can never finish it (C22 finding
+			// "replay-blocked-on-flow-control") and, inside a bubble, the watcher
+			// parked on the mutex keeps synctest.Wait from ever returning.  Large
+			// messages therefore commit the attempt after the first one.
+			opts = append(opts, grpc.MaxRetryRPCBufferSize(32*1024))
+		}
 		wg.Add(1)
 		go func() {
 			defer wg.Done()
